@@ -113,6 +113,18 @@ PROPERTIES = {
         "bounds_statement": "persisted version after every history of <= K operations; every reachable node decoded by an independent reader",
         "assumptions": COMMON_ASSUMPTIONS,
     },
+    "C10": {
+        "runs": {
+            "quick": [H("HarnessC10a", b(N=3, S=2, MODE=m)) for m in (0, 1, 2, 3, 4)] + [H("HarnessC10b", b(N=3, MODE=m)) for m in (0, 1, 2, 3)],
+            "thorough": [H("HarnessC10a", b(N=5, S=3, MODE=m), sample_every=300) for m in (0, 1)] + [H("HarnessC10a", b(N=3, S=5, MODE=0), sample_every=300)] +
+                        [H("HarnessC10a", b(N=3, S=2, MODE=m)) for m in (2, 3, 4)] +
+                        [H("HarnessC10b", b(N=5, MODE=m), sample_every=300) for m in (0, 1)] + [H("HarnessC10b", b(N=3, MODE=m)) for m in (2, 3, 4)] +
+                        [H("HarnessC10a", b(N=4, S=3, MODE=0, BF=3)), H("HarnessC10b", b(N=4, MODE=1, BF=3))],
+        },
+        "must_reach": ["C10.start.entry-iff-inside", "C10.step.key", "C10.step.entry-iff-inside", "C10.seek.count", "C10.seek.entries-correct-ascending-ge-probe"],
+        "bounds_statement": "trees of N ascending entries (all layer assignments; in memory, persisted+reloaded), never-populated and emptied trees; cursor placed by Min / Max / Ceil(symbolic probe), then S symbolic Forward/Backward steps with Get after each; SeekIter from a symbolic probe with ErrIterDone at every position",
+        "assumptions": COMMON_ASSUMPTIONS,
+    },
     "C13": {
         "runs": {
             "quick": [H("HarnessC13a", b(N=3, B=1, RELOAD=1))],
